@@ -325,6 +325,8 @@ func compareMatrix(r *gozxing.BitMatrix, m *mmodel) string {
 				row = r.GetRow(y, exact)
 			case 2:
 				over.Set(m.w + 39)
+				over.Set(m.w)
+				over.Set(m.w + 1)
 				over.Set(0)
 				row = r.GetRow(y, over)
 			}
@@ -335,6 +337,15 @@ func compareMatrix(r *gozxing.BitMatrix, m *mmodel) string {
 				if row.Get(x) != m.b[y*m.w+x] {
 					return fmt.Sprintf("GetRow(%d)[%d]=%v (variant %d), model %v", y, x, row.Get(x), variant, m.b[y*m.w+x])
 				}
+			}
+			// a row array longer than the matrix is wide holds nothing beyond the width
+			for x := m.w; x < row.GetSize(); x++ {
+				if row.Get(x) {
+					return fmt.Sprintf("GetRow(%d) into a longer array (variant %d) leaves bit %d set beyond the width %d", y, variant, x, m.w)
+				}
+			}
+			if ns := row.GetNextSet(m.w); ns != row.GetSize() {
+				return fmt.Sprintf("GetRow(%d) (variant %d): GetNextSet(width)=%d, row size %d", y, variant, ns, row.GetSize())
 			}
 			// next set bit inside the row, restricted to the width
 			if variant == 0 {
